@@ -65,6 +65,11 @@ def universes(tier, seed):
         mons3 = [(2, 0, 0), (0, 2, 0), (0, 0, 2), (1, 1, 0), (1, 0, 1), (0, 1, 1), (1, 1, 1)]
         allc = list(itertools.product([0, 1, 2], repeat=7))
         out["U3s"] = (["q0", "q1", "q2"], mons3, [list(c) for c in rng.sample(allc, 200)], "int")
+    # unsigned coefficients (differences wrap around): 2 indeterminates, 4 monomials, 0..3
+    mons5 = [(0, 0), (1, 0), (0, 1), (1, 1)]
+    coefs5 = [list(c) for c in itertools.product([0, 1, 2, 3], repeat=4)]
+    out["U5"] = (["q0", "q1"], mons5, coefs5 if tier == "thorough" else rng.sample(coefs5, 120),
+                 rng.choice(["uint8", "uint16", "uint32", "uint64"]))
     return out
 
 
@@ -100,7 +105,7 @@ def model_sign(coefs, mons, graded, reverse):
 def build_universe(names, mons, coefs, kind):
     import numpoly
 
-    coefs = numpy.asarray(coefs, dtype="int64" if kind == "int" else "float64")
+    coefs = numpy.asarray(coefs, dtype={"int": "int64", "float": "float64"}.get(kind, kind))
     return numpoly.polynomial_from_attributes(
         exponents=numpy.array(mons, dtype=int),
         coefficients=[numpy.ascontiguousarray(coefs[:, m]) for m in range(len(mons))],
@@ -122,10 +127,19 @@ def run_universe(spec, ctx):
              "sort_reverse": reverse}
     poly, cmat = build_universe(names, mons, coefs, kind)
     n = len(coefs)
-    sign = model_sign(cmat, mons, graded, reverse)
+    sign = model_sign(cmat.astype("int64") if cmat.dtype.kind == "u" else cmat, mons, graded, reverse)
     want = {"lt": sign < 0, "le": sign <= 0, "gt": sign > 0, "ge": sign >= 0, "eq": sign == 0,
             "ne": sign != 0}
     left, right = poly[:, numpy.newaxis], poly[numpy.newaxis, :]
+    if cmat.dtype.kind == "u":
+        # keep the unsigned dtype: operands of the full broadcast shape (broadcasting inside the
+        # library is allowed to promote)
+        left = numpoly.polynomial_from_attributes(
+            numpy.array(mons, dtype=int), [numpy.ascontiguousarray(numpy.repeat(cmat[:, None, m], n, axis=1))
+                                           for m in range(len(mons))], names=tuple(names), retain_names=True)
+        right = numpoly.polynomial_from_attributes(
+            numpy.array(mons, dtype=int), [numpy.ascontiguousarray(numpy.repeat(cmat[None, :, m], n, axis=0))
+                                           for m in range(len(mons))], names=tuple(names), retain_names=True)
     defaults = numpoly.get_options()
     try:
         for spelling in ("operator", "numpy"):
